@@ -731,6 +731,14 @@ def run(chk):
     calls = [c for c in ast.walk(step) if isinstance(c, ast.Call) and isinstance(c.func, ast.Name)
              and c.func.id == "v_parallel_advection_eval_step"]
     if len(calls) != 1:
+        # the kernel may be reached through a callable prepared in the constructor: what it froze there is judged before giving up
+        from .C05 import frozen_collaborator_reads
+        try:
+            frozen_collaborator_reads(chk, U.ADV, "VParallelAdvection", "step", ("v_parallel_advection_eval_step", GEN), kmod)
+        except AnalysisError:
+            raise
+        except Exception:          # noqa: BLE001 - not followed: the error below says so
+            pass
         raise AnalysisError("C11: kernel call not found in VParallelAdvection.step")
     c = calls[0]
     formals = [a.arg for a in kmod.func("v_parallel_advection_eval_step").args.args]
@@ -750,6 +758,15 @@ def run(chk):
         "self._edgeType": "bound", "self._spline.basis.cubic_uniform": "cubic_uniform_splines",
     }, const_recv="self._constants", callee=kmod.func("v_parallel_advection_eval_step"))
     b = agree.bind_call(c, formals) or {}
+    # the line the kernel overwrites is the caller's array (shared rule, C05.result_in_place)
+    from .C05 import result_in_place
+    if "f" in b:
+        result_in_place(chk, chk.mod(U.ADV).cls("VParallelAdvection"), step, [("v_parallel_advection_eval_step", c, b["f"])], U.ADV,
+                        "VParallelAdvection")
+    else:
+        chk.ob("E2-result-in-place", c, "v_parallel_advection_eval_step: the line it overwrites is the caller's array", None,
+               "which argument of the kernel call is the line it overwrites is not established (no parameter named `f`)",
+               file=U.ADV, func="VParallelAdvection.step")
     from ..core import same_expr
     from ..npsym import NpSym
     feet = b.get("vPts")
